@@ -65,21 +65,20 @@ theorem OfRun.never_both (P : Params) (toi maxSize : Nat) (ops : List Op) (st' :
     dropped its writer has been told `error` or `interrupted` (trace closed, no `complete` in it). -/
 theorem OfRun.md5_mismatch_errors (P : Params) (toi maxSize : Nat) (ops : List Op) (st' : St) (m : String)
     (h : run P (St.new toi maxSize) ops = .ok st')
-    (hm : (drop st').md5 = some m) (hchk : (drop st').md5Check = true) (htl : (drop st').tl ≠ some 0)
+    (hm : (drop st').md5 = some m) (hchk : (drop st').md5Check = true)
     (hne : P.md5 (drop st').written ≠ m) :
     noComplete (drop st').out ∧ Closed (drop st').wtrace := by
   refine ⟨?_, C09.OfRun.terminal_by_drop P toi maxSize ops st' h⟩
   apply Classical.byContradiction
   intro hc
-  exact hne ((C09.OfRun.complete_only_when_all_written P toi maxSize ops st' h hc).2.1 m hm hchk htl)
+  exact hne ((C09.OfRun.complete_only_when_all_written P toi maxSize ops st' h hc).2.1 m hm hchk)
 
 /-- `complete` => exactly the announced number of bytes was written (cenc null) and the digest matched when checked,
     for ALL histories (also corrupted packets) and every cenc. -/
 theorem OfRun.complete_length_and_digest (P : Params) (toi maxSize : Nat) (ops : List Op) (st' : St)
     (h : run P (St.new toi maxSize) ops = .ok st') (hc : ¬ noComplete (drop st').out) :
     ((drop st').cenc = some .null → ∃ T, (drop st').tl = some T ∧ (drop st').written.length = T) ∧
-    (∀ m, (drop st').md5 = some m → (drop st').md5Check = true → (drop st').tl ≠ some 0 →
-        P.md5 (drop st').written = m) ∧
+    (∀ m, (drop st').md5 = some m → (drop st').md5Check = true → P.md5 (drop st').written = m) ∧
     (∀ n, (drop st').cl = some n → (drop st').tl ≠ some 0 → (drop st').written.length = n) :=
   C09.OfRun.complete_only_when_all_written P toi maxSize ops st' h hc
 
@@ -269,7 +268,7 @@ theorem session_complete_implies_exact (PP : ObjSess.SParams) (cont : Nat → GS
 /-- non-vacuity of the session theorem: two interleaved objects (TOI 1 = [1,2,3], TOI 2 = [9]) announced by one FDT instance;
     the model session reports a chunk containing `complete` for each of them (and, before, the `new` + `open` of TOI 1) -/
 example :
-    let PP : ObjSess.SParams := { codec := C09.codec0, dzRead := fun _ _ _ => ⟨0, .err⟩, dzFuel := 1, md5 := fun _ => "",
+    let PP : ObjSess.SParams := { codec := C09.codec0, dzRead := fun _ _ _ => ⟨0, .err⟩, dzFuel := fun _ => 1, md5 := fun _ => "",
                                   planOf := fun _ _ => ⟨.store, false, true, fun _ => true⟩ }
     let o : Oti := ⟨.noCode, 2, 2, 0, none⟩
     let f : ObjSess.Fdt := ⟨1, [(1, ⟨some o, 3, none, .null, none, false⟩), (2, ⟨some o, 1, none, .null, none, false⟩)]⟩
@@ -284,7 +283,7 @@ example :
     block under it and tells the writer `complete` with [1,2,7,8] - neither A nor B.  With a Content-MD5 the object would end in `error`
     (`md5_mismatch_errors`). -/
 example :
-    let PP : ObjSess.SParams := { codec := C09.codec0, dzRead := fun _ _ _ => ⟨0, .err⟩, dzFuel := 1, md5 := fun _ => "",
+    let PP : ObjSess.SParams := { codec := C09.codec0, dzRead := fun _ _ _ => ⟨0, .err⟩, dzFuel := fun _ => 1, md5 := fun _ => "",
                                   planOf := fun _ _ => ⟨.store, false, true, fun _ => true⟩ }
     let o : Oti := ⟨.noCode, 2, 1, 0, none⟩
     let f (id : Nat) : ObjSess.Fdt := ⟨id, [(1, ⟨some o, 4, none, .null, none, false⟩)]⟩
@@ -365,18 +364,16 @@ theorem md5_mismatch_errors (P : Params) (toi maxSize : Nat) (ops : List Op) (m 
     ∃ st', run P (St.new toi maxSize) ops = .ok st' ∧
      (((drop st').md5 = some m) →
       ((drop st').md5Check = true) →
-      ((drop st').tl ≠ some 0) →
       (P.md5 (drop st').written ≠ m) →
       (noComplete (drop st').out ∧ Closed (drop st').wtrace)) :=
-  F.elim toi (fun st' h hm hchk htl hne => OfRun.md5_mismatch_errors P toi maxSize ops st' m h hm hchk htl hne)
+  F.elim toi (fun st' h hm hchk hne => OfRun.md5_mismatch_errors P toi maxSize ops st' m h hm hchk hne)
 
 theorem complete_length_and_digest (P : Params) (toi maxSize : Nat) (ops : List Op)
     (F : Feasible P maxSize ops) :
     ∃ st', run P (St.new toi maxSize) ops = .ok st' ∧
      ((¬ noComplete (drop st').out) →
       (((drop st').cenc = some .null → ∃ T, (drop st').tl = some T ∧ (drop st').written.length = T) ∧
-    (∀ m, (drop st').md5 = some m → (drop st').md5Check = true → (drop st').tl ≠ some 0 →
-        P.md5 (drop st').written = m) ∧
+    (∀ m, (drop st').md5 = some m → (drop st').md5Check = true → P.md5 (drop st').written = m) ∧
     (∀ n, (drop st').cl = some n → (drop st').tl ≠ some 0 → (drop st').written.length = n))) :=
   F.elim toi (fun st' h hc => OfRun.complete_length_and_digest P toi maxSize ops st' h hc)
 
